@@ -18,7 +18,7 @@ Your task: make a SMALL, realistic change to the project's non-test source code 
   (b) the project's existing test suite still passes: at least `cargo test -p <the crate(s) you touched> --offline` must give the same results as before your change (run it before and after; two tests in ntpd `daemon::spawn::csptp::tests::{{creates_a_source,recreates_a_source}}` fail even without any change and some network tests are flaky under load - ignore those), and
   (c) the breakage needs something SPECIFIC to manifest - a particular unusual input or value, a boundary case, a multi-step sequence, a particular state - not something ordinary use or the existing tests would expose at once.
 {hint}
-Then write a demonstration: a small Rust test (put it in a NEW file, e.g. a new `#[cfg(test)] mod` file included from the touched crate, or a new file under `<crate>/tests/`) that uses the crate's API to show the property violated: it must FAIL with your change and PASS without it (verify both by `git stash`-ing the source change, or by applying/reverting your patch). Crate-private items are reachable from an in-crate `#[cfg(test)]` module.
+Then write a demonstration: a small Rust test (put it in a NEW file, e.g. a new `#[cfg(test)] mod` file included from the touched crate, or a new file under `<crate>/tests/`) that uses the crate's API to show the property violated: it must FAIL with your change and PASS without it (verify both by saving your source change as a diff and using `git apply` / `git apply -R` - do NOT use `git stash`: the stash is shared between all worktrees of this repository and other people work in sibling worktrees). Crate-private items are reachable from an in-crate `#[cfg(test)]` module.
 
 Practicalities: offline sandbox (no network; `--offline` for cargo). To save build time use `export CARGO_TARGET_DIR=/tmp/mut_target` for every cargo command (a shared, pre-warmed target dir; cargo may wait a few seconds for its lock). The machine is busy: prefer `cargo test -p <crate> --offline <filter>` over whole-workspace runs. Do not edit existing tests. Do not use cfg tricks, feature flags, environment variables or time bombs; the change must be ordinary code.
 
